@@ -37,6 +37,7 @@ import (
 	xpv1 "github.com/crossplane/crossplane-runtime/apis/common/v1"
 	"github.com/crossplane/crossplane-runtime/pkg/errors"
 	"github.com/crossplane/crossplane-runtime/pkg/event"
+	"github.com/crossplane/crossplane-runtime/pkg/fieldpath"
 	"github.com/crossplane/crossplane-runtime/pkg/meta"
 	"github.com/crossplane/crossplane-runtime/pkg/reconciler/managed"
 	"github.com/crossplane/crossplane-runtime/pkg/resource"
@@ -540,6 +541,12 @@ func (c *FunctionComposer) Compose(ctx context.Context, xr *composite.Unstructur
 	xr.SetKind(k)
 	xr.SetName(n)
 	xr.SetUID(u)
+
+	// Functions set XR status conditions using the conditions of their
+	// RunFunctionResponse, which can't be of a system type. Don't let them
+	// write conditions (e.g. Ready) by including them in the status of their
+	// desired XR. Deleting a field that doesn't exist is a no-op.
+	_ = fieldpath.Pave(xr.Object).DeleteField("status.conditions")
 
 	// NOTE(phisco): Here we are fine using a hardcoded field owner as there is
 	// no risk of conflict between different XRs.
